@@ -57,7 +57,7 @@ from rbql import rbql_engine, rbql_csv
 import qgen
 
 mode = sys.argv[1]
-arg = json.loads(sys.argv[2])
+arg = json.loads(sys.stdin.read())
 out = []
 
 class BreakingStream(object):
@@ -135,7 +135,7 @@ print(json.dumps(out))
 def run_impl(mode, arg):
     env = common.impl_env()
     env['PYTHONPATH'] = env['PYTHONPATH'] + ':' + str(common.ROOT / 'harness')
-    r = subprocess.run([common.PY, '-W', 'ignore', '-c', IMPL_CODE, mode, json.dumps(arg)], env=env, stdout=subprocess.PIPE, stderr=subprocess.PIPE, timeout=600)
+    r = subprocess.run([common.PY, '-W', 'ignore', '-c', IMPL_CODE, mode], input=json.dumps(arg).encode(), env=env, stdout=subprocess.PIPE, stderr=subprocess.PIPE, timeout=1800)
     try:
         return json.loads(r.stdout.decode().strip().split('\n')[-1])
     except (ValueError, IndexError):
